@@ -24,6 +24,7 @@ type Engine struct {
 	Prog     *ssa.Program
 	Funcs    map[string]*ssa.Function // "pkgpath::Key" for every function with a body in root packages
 	mutGlobals map[*ssa.Global]bool
+	globalInit map[*ssa.Global]*ssa.Const
 	Overlay  map[string][]byte
 	Notes    map[string]bool // abstractions encountered (reported in evidence)
 }
@@ -34,7 +35,7 @@ const stagingDir = "staging/src/github.com/kubewharf/apiserver-runtime"
 
 func NewEngine(repo, verif string) *Engine {
 	return &Engine{Repo: repo, Verif: verif, Spec: NewSpec(), Pkgs: map[string]*packages.Package{}, SSAPkgs: map[string]*ssa.Package{},
-		Funcs: map[string]*ssa.Function{}, mutGlobals: map[*ssa.Global]bool{}, Notes: map[string]bool{}}
+		Funcs: map[string]*ssa.Function{}, mutGlobals: map[*ssa.Global]bool{}, globalInit: map[*ssa.Global]*ssa.Const{}, Notes: map[string]bool{}}
 }
 
 // contractFiles finds zz_verif_contracts.go files in the repo.
@@ -204,6 +205,24 @@ func (e *Engine) indexFuncs(path string, sp *ssa.Package) {
 		e.Funcs[path+"::"+k] = fn
 		for _, an := range fn.AnonFuncs {
 			addFn(an)
+		}
+		if fn.Name() == "init" {
+			for _, b := range fn.Blocks {
+				for _, in := range b.Instrs {
+					if st, ok := in.(*ssa.Store); ok {
+						if g, ok := st.Addr.(*ssa.Global); ok {
+							if c, ok := st.Val.(*ssa.Const); ok {
+								if _, dup := e.globalInit[g]; dup {
+									e.mutGlobals[g] = true // assigned more than once
+								}
+								e.globalInit[g] = c
+							} else {
+								e.globalInit[g] = nil
+							}
+						}
+					}
+				}
+			}
 		}
 		if fn.Name() != "init" {
 			for _, b := range fn.Blocks {
